@@ -24,6 +24,7 @@ func keyCtors(w *core.World, f *core.FuncInfo, depth int, out map[string]int, se
 	c := f.Ctx()
 	info := f.Info()
 	kvT, _ := w.LookupObj("types.KeyValue").(*types.TypeName)
+	var at ast.Node // the KeyValue literal being looked at (for its guard context)
 	keyExpr := func(e ast.Expr) {
 		e = ast.Unparen(e)
 		var call *ast.CallExpr
@@ -46,7 +47,13 @@ func keyCtors(w *core.World, f *core.FuncInfo, depth int, out map[string]int, se
 					for _, a := range call.Args {
 						args = append(args, core.CanonExpr(c, a))
 					}
-					out["key:"+core.ShortName(fn)+"("+strings.Join(args, ",")+")"]++
+					guard := ""
+					if at != nil {
+						if g := guardsOf(w, c, at, f); g != "" {
+							guard = " under " + g
+						}
+					}
+					out["key:"+core.ShortName(fn)+"("+strings.Join(args, ",")+")"+guard]++
 				} else {
 					out["key:"+core.ShortName(fn)]++
 				}
@@ -66,7 +73,9 @@ func keyCtors(w *core.World, f *core.FuncInfo, depth int, out map[string]int, se
 				for _, el := range s.Elts {
 					if kv, ok := el.(*ast.KeyValueExpr); ok {
 						if id, ok := kv.Key.(*ast.Ident); ok && id.Name == "Key" {
+							at = s
 							keyExpr(kv.Value)
+							at = nil
 						}
 					}
 				}
